@@ -241,7 +241,7 @@ def _viol(d, root, s, x, path, first_only):
             if k in x:
                 sub("properties", subs, x[k], path + (k,))
             elif d == 3 and isinstance(subs, dict) and subs.get("required", False):
-                out.append(("required", path + (k,)))     # Draft 3: reported under the missing name
+                out.append(("properties", path + (k,)))   # Draft 3: reported under the missing name, by `properties`
         for p, subs in pats.items():
             for k in x:
                 if re.search(p, k) is not None:
